@@ -466,6 +466,26 @@ def run_pair(task):
   jax.eval_shape(_size)
   obs_size = box['n']
   res['stats'].update(nq=nq, nv=nv, nb=nb, action_size=na, observation_size=int(obs_size))
+  # constructor-flag variant (shape level only, by tracing: no compile): the declared observation size must follow
+  # the flag that changes the observation layout
+  if hasattr(env, '_exclude_current_positions_from_observation'):
+    flag = not bool(env._exclude_current_positions_from_observation)
+    try:
+      env2 = envs.get_environment(name, backend=backend, exclude_current_positions_from_observation=flag)
+      box2 = {}
+      def _size2():
+        box2['n'] = env2.observation_size
+        return jp.zeros(())
+      jax.eval_shape(_size2)
+      shp = jax.eval_shape(env2.reset, jax.random.PRNGKey(0)).obs.shape
+      res['stats']['flag_variant'] = dict(exclude_current_positions=flag, declared=int(box2['n']), obs=int(shp[-1]))
+      want = spec_obs_size(name, env_cfg(env2, name, backend), nq, nv, nb)
+      if int(box2['n']) != int(shp[-1]) or int(shp[-1]) != int(want):
+        fail('obs-size-flag', f'with exclude_current_positions_from_observation={flag}: declared observation_size '
+             f'{int(box2["n"])}, reset returns {int(shp[-1])}, layout formula {int(want)}')
+    except Exception as e:  # noqa: BLE001
+      fail('flag-constructor-raises', f'get_environment(..., exclude_current_positions_from_observation={flag}) raises '
+           f'{type(e).__name__}: {str(e)[:200]}')
   if w.action_size != na or env.sys.act_size() != na:
     fail('action-size', f'action_size {na} differs from wrapper {w.action_size} / sys.act_size {env.sys.act_size()}')
   ft = jp.float64 if x64 else jp.float32
